@@ -20,7 +20,7 @@ LEVEL_TEXT = ("exhaustive on the small spaces named by the property, generated s
 LEVEL_NOTE = "trusts the reference closure (15 lines)"
 RULE = ("cases: (enumerated) DAG x start set x forever mask; (generated) DAG on <= 12 nodes, "
         "hash keys, insertion order, <= 3 start jobs, forever flags, some requirements to "
-        "jobs outside the scheduler, an edit program of <= 6 operations (queries repeated after most steps, not all), and a tree of nested "
+        "jobs outside the scheduler, in 1 case in 4 the scheduler has already been run once (forever jobs cancelled), an edit program of <= 6 operations incl. moveedge (queries repeated after most steps, not all), and a tree of nested "
         "schedulers for iterate_jobs. non-trivial: the transitive closure differs from the "
         "direct neighbours, or >= 2 start jobs, or a forever exit job, or a query after an "
         "edit; distinct = distinct case digest")
